@@ -487,3 +487,77 @@ Corollary key_identity x y : wfb x = true -> wfb y = true -> (key x = key y <-> 
 Proof.
   intros Wx Wy. rewrite <- (item_identity x y Wx Wy), <- ikey_eqb_eq, (key_bridge x y (wfb_size x Wx) (wfb_size y Wy)). reflexivity.
 Qed.
+
+(* ---------------------------------------------------------------- all argument forms *)
+(* an argument stands for the value v either as its encoding or as a JSON text that parses to it; the code re-encodes
+   the text first, so the four functions give the same answer for every combination of forms *)
+Definition stands_for (t : list N) (v : value) : Prop :=
+  (t = enc v /\ top_ok v) \/ (is_jsonb t = false /\ JsonText.parse_value t = Ok v).
+Lemma as_jsonb_stands t v : wfb v = true -> stands_for t v -> as_jsonb t = Ok (enc v).
+Proof.
+  intros W [[-> T]|[Ht Hp]]; [apply as_jsonb_enc; assumption|].
+  unfold as_jsonb. rewrite Ht, Hp. cbn [bind]. rewrite (to_vec_is_layout v (wfb_size v W)). reflexivity.
+Qed.
+Theorem array_distinct_w_forms t a buf : wfb a = true -> stands_for t a -> wf_size (array_distinct_t a) = true ->
+  array_distinct_w t buf = Ok (buf ++ enc (array_distinct_t a)).
+Proof. intros W S Hr. unfold array_distinct_w. rewrite (as_jsonb_stands t a W S). cbn [bind]. apply array_distinct_b_enc; assumption. Qed.
+Theorem array_intersection_w_forms t u a b buf : wfb a = true -> wfb b = true -> stands_for t a -> stands_for u b ->
+  wf_size (array_intersection_t a b) = true ->
+  array_intersection_w t u buf = Ok (buf ++ enc (array_intersection_t a b)).
+Proof.
+  intros Wa Wb Sa Sb Hr. unfold array_intersection_w. rewrite (as_jsonb_stands t a Wa Sa), (as_jsonb_stands u b Wb Sb). cbn [bind].
+  apply array_intersection_b_enc; assumption.
+Qed.
+Theorem array_except_w_forms t u a b buf : wfb a = true -> wfb b = true -> stands_for t a -> stands_for u b ->
+  wf_size (array_except_t a b) = true ->
+  array_except_w t u buf = Ok (buf ++ enc (array_except_t a b)).
+Proof.
+  intros Wa Wb Sa Sb Hr. unfold array_except_w. rewrite (as_jsonb_stands t a Wa Sa), (as_jsonb_stands u b Wb Sb). cbn [bind].
+  apply array_except_b_enc; assumption.
+Qed.
+Theorem array_overlap_w_forms t u a b : wfb a = true -> wfb b = true -> stands_for t a -> stands_for u b ->
+  array_overlap_w t u = Ok (array_overlap_t a b).
+Proof.
+  intros Wa Wb Sa Sb. unfold array_overlap_w. rewrite (as_jsonb_stands t a Wa Sa), (as_jsonb_stands u b Wb Sb). cbn [bind].
+  apply array_overlap_b_enc; assumption.
+Qed.
+
+(* ---------------------------------------------------------------- the iterator fuel is enough on every buffer *)
+Lemma single_item_nf bs h : nf (single_item bs h).
+Proof.
+  unfold single_item. destruct (hdr_type h =? OBJECT_CONTAINER_TAG); [apply nf_ok|].
+  destruct (read_u32 bs 4); [|apply nf_other]. destruct (slice_from bs 8); [apply nf_ok|apply nf_panic].
+Qed.
+Lemma count_items_nf bs h : nf (count_items bs h).
+Proof.
+  unfold count_items. destruct (hdr_type h =? ARRAY_CONTAINER_TAG).
+  - apply iterate_array_nf; intros; apply nf_ok.
+  - apply nf_bind; [apply single_item_nf|intros; apply nf_ok].
+Qed.
+Theorem set_walkers_fuel bs1 bs2 buf :
+  array_distinct_b bs1 buf <> Err EFuel /\ array_intersection_b bs1 bs2 buf <> Err EFuel /\
+  array_except_b bs1 bs2 buf <> Err EFuel /\ array_overlap_b bs1 bs2 <> Err EFuel.
+Proof.
+  repeat split.
+  - unfold array_distinct_b. destruct (read_u32 bs1 0) as [h|]; [|apply nf_other].
+    apply nf_bind; [|intros; apply nf_ok]. destruct (hdr_type h =? ARRAY_CONTAINER_TAG).
+    + apply iterate_array_nf; [intros; apply nf_ok|]. intros s j p _. destruct (iset_mem (j, p) (fst s)); apply nf_ok.
+    + apply nf_bind; [apply single_item_nf|intros; apply nf_ok].
+  - unfold array_intersection_b. destruct (read_u32 bs1 0) as [h1|]; [|apply nf_other]. destruct (read_u32 bs2 0) as [h2|]; [|apply nf_other].
+    apply nf_bind; [apply count_items_nf|]. intros m _. apply nf_bind; [|intros; apply nf_ok].
+    destruct (hdr_type h1 =? ARRAY_CONTAINER_TAG).
+    + apply iterate_array_nf; [intros; apply nf_ok|]. intros s j p _. destruct (imap_take (j, p) (fst s)); apply nf_ok.
+    + apply nf_bind; [apply single_item_nf|intros; apply nf_ok].
+  - unfold array_except_b. destruct (read_u32 bs1 0) as [h1|]; [|apply nf_other]. destruct (read_u32 bs2 0) as [h2|]; [|apply nf_other].
+    apply nf_bind; [apply count_items_nf|]. intros m _. apply nf_bind; [|intros; apply nf_ok].
+    destruct (hdr_type h1 =? ARRAY_CONTAINER_TAG).
+    + apply iterate_array_nf; [intros; apply nf_ok|]. intros s j p _. destruct (imap_take (j, p) (fst s)); apply nf_ok.
+    + apply nf_bind; [apply single_item_nf|intros; apply nf_ok].
+  - unfold array_overlap_b. destruct (read_u32 bs1 0) as [h1|]; [|apply nf_other]. destruct (read_u32 bs2 0) as [h2|]; [|apply nf_other].
+    apply nf_bind.
+    + destruct (hdr_type h2 =? ARRAY_CONTAINER_TAG); [apply iterate_array_nf; intros; apply nf_ok|].
+      apply nf_bind; [apply single_item_nf|intros; apply nf_ok].
+    + intros s _. destruct (hdr_type h1 =? ARRAY_CONTAINER_TAG).
+      * apply iterate_array_nf; [intros; apply nf_ok|]. intros st j p _. destruct (iset_mem (j, p) s); apply nf_ok.
+      * apply nf_bind; [apply single_item_nf|intros; apply nf_ok].
+Qed.
